@@ -35,6 +35,9 @@ type Case struct {
 	Debug    bool        `json:"debug"`
 	// Consumer scripts: one list of ops per consumer; op codes 0 String, 1 Analyse, 2 PrepareForDisplay, 3 Copy+String, 4 scribble own fields
 	Consumers [][]int `json:"consumers"`
+	// flags of the configuration handed to appcore (it ignores them today; they must not change what consumers see)
+	CfgDisplay bool `json:"config_display_messages"`
+	CfgRecord  bool `json:"config_record_messages"`
 }
 
 func stripTimes(s string) string {
@@ -96,6 +99,31 @@ func check(c Case, o *stats.Obs) error {
 			return nil
 		}
 	}
+	// Before anything else in this case (in the first case of a process: before anything at all), several
+	// handlers decode and display the pool at the same time; their views are compared with the baseline
+	// below.  Lazily initialised shared state is thereby first touched concurrently.
+	var early [][]view
+	if c.Handlers > 1 {
+		early = make([][]view, c.Handlers)
+		var wg sync.WaitGroup
+		for g := 0; g < c.Handlers; g++ {
+			wg.Add(1)
+			go func(g int) {
+				defer wg.Done()
+				hh := handler.New(drive.StartTime, lv)
+				vs := make([]view, len(c.Pool))
+				for k := range c.Pool {
+					i := (k + g) % len(c.Pool)
+					m, _ := hh.GetMessage(append([]byte{}, c.Pool[i]...))
+					if m != nil {
+						vs[i] = viewOf(m)
+					}
+				}
+				early[g] = vs
+			}(g)
+		}
+		wg.Wait()
+	}
 	// Baseline: each pool entry decoded first by a fresh handler.
 	base := make([]view, len(c.Pool))
 	for i, f := range c.Pool {
@@ -109,6 +137,14 @@ func check(c Case, o *stats.Obs) error {
 		if strings.HasPrefix(base[i].Text, "<<String()") {
 			o.Key = "string-not-repeatable"
 			return fmt.Errorf("pool entry %d (%x): %s", i, []byte(f), base[i].Text)
+		}
+	}
+	for g, vs := range early {
+		for i := range vs {
+			if d := sameView(vs[i], base[i]); d != "" {
+				o.Key = "concurrency-dependence"
+				return fmt.Errorf("handler %d of %d decoding the pool concurrently at the start: frame %x differs from the same frame decoded alone: %s", g, len(early), []byte(c.Pool[i]), d)
+			}
 		}
 	}
 	// (1) one handler, the whole history, frame by frame
@@ -300,7 +336,7 @@ func check(c Case, o *stats.Obs) error {
 				}
 			}(ci)
 		}
-		core := appcore.New(&jsonconfig.Config{}, chans)
+		core := appcore.New(&jsonconfig.Config{DisplayMessages: c.CfgDisplay, RecordMessages: c.CfgRecord}, chans)
 		ret := make(chan int, 1)
 		go func() { ret <- core.HandleMessagesUntilEOF(drive.StartTime, bufio.NewReader(bytes.NewReader(input))) }()
 		select {
@@ -371,6 +407,8 @@ func gen1(t *rapid.T) Case {
 	}
 	c.Handlers = rapid.SampledFrom([]int{1, 2, 4, 8}).Draw(t, "handlers")
 	c.Debug = rapid.Bool().Draw(t, "debug")
+	c.CfgDisplay = rapid.Bool().Draw(t, "cfgDisplay")
+	c.CfgRecord = rapid.Bool().Draw(t, "cfgRecord")
 	nc := rapid.IntRange(0, 3).Draw(t, "consumers")
 	for i := 0; i < nc; i++ {
 		k := rapid.IntRange(1, 5).Draw(t, "nOps")
